@@ -176,6 +176,41 @@ def gen_model_config(r, entry, d):
                                      "tol": r.choice([1e-4, 1e-2])}, "classes": r.choice([2, 2, 3])}
 
 
+def config_grid(entry, d):
+    """every combination of the boolean switches x entry methods of an estimator (the rarer structural forms once each):
+    run at every budget with a comfortably fitting accountant, so that 'returned normally but charged nothing' in ONE
+    configuration cannot be missed by sampling"""
+    import itertools
+    out = []
+    if entry == "StandardScaler":
+        for m, wm, ws in itertools.product(["fit", "partial_fit", "fit_transform"], [True, False], [True, False]):
+            out.append({"method": m, "kw": {"with_mean": wm, "with_std": ws, "copy": True}})
+    elif entry == "LinearRegression":
+        for fi, cp, t in itertools.product([True, False], [True, False], [1, 2]):
+            out.append({"method": "fit", "kw": {"fit_intercept": fi, "copy_X": cp}, "targets": t})
+    elif entry == "PCA":
+        for m, c, w in itertools.product(["fit", "fit_transform"], [True, False], [True, False]):
+            out.append({"method": m, "kw": {"n_components": min(2, d), "centered": c, "whiten": w, "copy": True}})
+        for nc in (None, 1, d, 0.8):
+            out.append({"method": "fit", "kw": {"n_components": nc, "centered": True, "whiten": False, "copy": False}})
+    elif entry == "LogisticRegression":
+        for fi, ws, k in itertools.product([True, False], [True, False], [2, 3]):
+            out.append({"method": "fit", "kw": {"fit_intercept": fi, "warm_start": ws, "C": 1.0, "tol": 1e-4}, "classes": k})
+    elif entry == "GaussianNB":
+        for m, pr in itertools.product(["fit", "partial_fit"], [None, [0.5, 0.5]]):
+            out.append({"method": m, "kw": {"priors": pr, "var_smoothing": 1e-9}})
+    elif entry == "KMeans":
+        for m, k in itertools.product(["fit", "fit_predict", "fit_transform"], [1, 2, 3]):
+            out.append({"method": m, "kw": {"n_clusters": k}})
+    elif entry == "RandomForestClassifier":
+        for sh, k, ne in itertools.product([True, False], [2, 3], [1, 3]):
+            out.append({"method": "fit", "kw": {"n_estimators": ne, "max_depth": 2, "shuffle": sh}, "classes": k})
+    else:
+        for md, k in itertools.product([1, 3], [2, 3]):
+            out.append({"method": "fit", "kw": {"max_depth": md}, "classes": k})
+    return out
+
+
 def n_spends(sc):
     if sc["kind"] in ("scalar", "fit"):
         return 1
@@ -605,13 +640,21 @@ WITNESSES = {"C09:RandomForestClassifier:refused-although-fits": witness_forest,
 def check(ctx):
     r = ctx.fork("scenarios")
     max_cells = 400
-    n = ctx.budget(1400, 15000)
+    n = ctx.budget(1250, 15000)
     if ctx.searching:
         n = min(n, 5000 if ctx.tier == "quick" else 30000)     # keep the failing-input search within the tier's time limit
     entries = T.STAT_TOOLS + T.HIST_TOOLS + T.QUANT_TOOLS + MODELS
     scs = [dict(FOREST_WITNESS)]
     for i in range(n):
         scs.append(gen_scenario(r, max_cells, entries[i % len(entries)] if i % 2 == 0 else None))
+    # stratum: the full grid of boolean / method configurations of every estimator, once each, comfortably fitting budget
+    if not ctx.searching:
+        for entry in MODELS:
+            for k, cfg in enumerate(config_grid(entry, 3)):
+                scs.append({"entry": entry, "kind": "fit", "eps": 1.0, "state": ["more", "unlimited", "equal"][k % 3],
+                            "mode": MODES[k % 3], "decoy": "finite", "prior": [0.1] if k % 2 else [], "seed": 100 + k,
+                            "nested_with": False, "acc_kind": "plain", "decoy_kind": "plain", "n_features": 3,
+                            "switch_default": bool(k % 2), "config": cfg})
     # stratum: lists of quantiles over an axis against an EXACTLY fitting budget (where an up-front check that is not
     # computed from the very spends that will be recorded shows as a part-way refusal)
     r2 = ctx.fork("multiq-exact")
